@@ -897,6 +897,9 @@ EXPLANATION += (
     " R2 also: the frames the CLI keeps above the stack anchor are added (thorough: from the linked executable's .stack_sizes); no local array of 64 KiB or more in any body; the thread on which the CLI runs the program is found (a closure handed to a thread-spawning call from which Runtime::run* is reachable) and its stack size read from Builder::stack_size - the main thread's 8 MiB is only assumed when there is no such thread."
     " R3: the recursions over the depth of run-time data (copy, relocation, drop, printing) cannot probe the stack; they are accepted only because nesting is bounded where it grows: there is a depth-limited predicate over a Value (it calls itself with its budget decremented and stops at zero), a routine whose 'too deep' outcome is an Err, and every growth site - a Value::Array built from a vector that received evaluated items, ArrayBuiltin::push, a write over an element of a Vec<Value> - found by type, is covered by a propagated call of that routine on the value concerned (dominance; for a check spliced in from a new helper the Result is followed through its `?`). R1 accepts the data-depth recursions only when R3 holds; R2 adds limit x per-level frame to what must fit the stack. One genuine defect (D30) was hidden by an earlier, wrong arena-exhaustion bound and is repaired."
 )
+EXPLANATION += (
+    ' R3 also: the depth predicate visits the items of an array under no condition other than its budget test and the Array match; the checking routine cannot return Ok on a path that has not asked the predicate.'
+)
 ASSUMPTIONS = [
     "the per-level stack cost of the data-depth recursions is the fattest of their own frames plus 128 bytes of formatting machinery (dev profile measured; release assumed 640 bytes)",
     "compiler-generated drop glue over a nested value costs no more per level than the measured copy/print routines",
